@@ -134,3 +134,45 @@ def is_result_expr(e, rvars=()):
     if isinstance(e, ast.IfExp):
         return is_result_expr(e.body, rvars) and is_result_expr(e.orelse, rvars)
     return False
+
+
+# ---------------------------------------------------------------------------
+# Statement-free sub-forms: compile(X).expr is safe when X cannot compile to statements
+# ---------------------------------------------------------------------------
+
+# Arms of compile_pattern whose own test restricts the model to literals / symbols / dotted names (confirmed against the
+# pattern grammar `_pattern` by reading): guard that must hold on the path -> why the compiled form has no statements
+STATEMENT_FREE_GUARDS = {
+    "isinstance(value, (String, Integer, Float, Complex, Bytes))": "a literal compiles to a Constant",
+    "value[0] == Symbol('.')": "a dotted form of symbols compiles to an attribute chain",
+    "isinstance(value, Dict)": "mapping-pattern keys are literals or dotted names by the pattern grammar",
+    "isinstance(value, Expression)": "the head of a class pattern is a (dotted) symbol by the pattern grammar",
+    "isinstance(value, Keyword)": "hy.models.Keyword is a dotted name",
+    "str(value) in ('False', 'None', 'True')": "a constant symbol compiles to a Constant",
+}
+
+
+def statement_free(call, func):
+    """Why the sub-form compiled by `call` (compiler.compile(X)) cannot produce statements, or None.
+    Decided from the model expression X itself or from the conditions on the path to the call."""
+    from . import pyq
+    from .pysrc import dotted as _d
+
+    def model_ctor(a):
+        if isinstance(a, ast.Call):
+            d = _d(a.func) or ""
+            if d in ("Symbol", "dotted", "String", "Integer", "Keyword"):
+                return f"the argument is built by {d}(...)"
+            if isinstance(a.func, ast.Attribute) and a.func.attr == "replace":
+                return model_ctor(a.func.value)
+        return None
+
+    if call.args:
+        r = model_ctor(call.args[0])
+        if r:
+            return r
+    for g in pyq.guard_texts(call, func):
+        for pat, why in STATEMENT_FREE_GUARDS.items():
+            if g == pat or pat in g:
+                return f"path condition `{pat}`: {why}"
+    return None
